@@ -22,13 +22,13 @@ EXPLANATION = (
     "the escaping style of every character as solver variables; integer literals with a symbolic mantissa and exponent."
 )
 OUTSIDE = [
-    "strings longer than 2 (thorough 3) characters; characters outside {\\ ' \" $ { a U+0008 e-acute U+1F600}",
+    "strings longer than 2 (thorough 3) characters; characters outside {\\ ' \" $ { a U+0008 e-acute U+1F600 U+20BB7 U+10FFFF}",
     "`${` inside string literals (interpolation needs the token regex): covered concretely in the grid only",
     "float literals (their value is float(text) by definition); json of values nested deeper than one list level",
 ]
 
 ENV = Environment()
-ALPHA = "\\'\"${a\x08é\U0001F600"
+ALPHA = "\\'\"${a\x08é\U0001F600\U00020BB7\U0010FFFF"
 SHORT = {"\\": "\\\\", "'": "\\'", '"': '\\"', "$": "\\$", "\x08": "\\b"}
 
 
@@ -108,7 +108,7 @@ def _value_everywhere(body: str, quote: str, want: str) -> bool:
 
 
 _GRID = [("a'", [0, 1], False), ('a"', [0, 1], True), ("\\", [1], False), ("\\$", [1, 1], True), ("é\U0001F600", [2, 3], True), ("\x08", [1], False),
-         ("\x08", [2], True), ("'\"", [1, 0], False), ("$a", [0, 0], True), ("{$", [0, 0], False), ("\\'", [1, 1], False), ("", [], True)]
+         ("\x08", [2], True), ("'\"", [1, 0], False), ("$a", [0, 0], True), ("{$", [0, 0], False), ("\\'", [1, 1], False), ("", [], True), ("\U00020BB7", [3], True), ("\U0010FFFFa", [3, 0], False)]
 
 
 @cond(
@@ -119,7 +119,7 @@ _GRID = [("a'", [0, 1], False), ('a"', [0, 1], True), ("\\", [1], False), ("\\$"
     timeout_thorough=2400,
     shard={"dq": [False, True], "s0": [0, 1, 2, 3]},
     covers="every string over the alphabet, under every valid escaping of each character, evaluates to exactly that string at all five parse sites (parse_primitive, parse_boolean_primitive, parse_string_or_identifier, parse_string_or_path, bracketed path segment)",
-    bounds="v over {\\ ' \" $ { a U+0008 e-acute U+1F600} len <= 2 (thorough 3); 4 escaping styles per character (raw, short, \\uXXXX, surrogate pair); both quote kinds",
+    bounds="v over {\\ ' \" $ { a U+0008 e-acute U+1F600 U+20BB7 U+10FFFF} len <= 2 (thorough 3); 4 escaping styles per character (raw, short, \\uXXXX, surrogate pair); both quote kinds",
     grid=lambda: [(v, d, (st + [0, 0, 0])[0], (st + [0, 0, 0])[1], (st + [0, 0, 0])[2], 9) for (v, st, d) in _GRID],
 )
 def k_literal_rt(v: str, dq: bool, s0: int, s1: int, s2: int, N: int) -> bool:
